@@ -56,100 +56,82 @@ def ident_problem(name: str) -> str | None:
     return None
 
 
+_MASTER = re.compile(
+    r"(?P<ws>[ \t\r\f\v\xa0]+)"
+    r"|(?P<nl>\n)"
+    r"|(?P<comment>--[^\n]*)"
+    r"|(?P<bitstr>[0-9]*[sSuU]?[bBoOxXdD]\"[^\"\n]*\")"
+    r"|(?P<id>[A-Za-z_][A-Za-z0-9_]*)"
+    r"|(?P<based>[0-9]+#[0-9A-Fa-f_]+(?:\.[0-9A-Fa-f_]+)?#(?:[eE][+-]?[0-9]+)?)"
+    r"|(?P<num>[0-9][0-9_]*(?:\.[0-9][0-9_]*)?(?:[eE][+-]?[0-9]+)?)"
+    r"|(?P<str>\"(?:[^\"\n]|\"\")*\")"
+    r"|(?P<d2>=>|<=|>=|/=|:=|\*\*|<>|\?=|\?\?)"
+    r"|(?P<tick>')"
+    r"|(?P<d1>[&()*+,\-./:;<=>|\[\]?@])"
+)
+
+
 def lex(text: str):
     toks = []
     bad_idents = []  # (name, reason, line)
     i, n, line = 0, len(text), 1
+    match = _MASTER.match
+    append = toks.append
+    prev = None  # previous non-comment token
     while i < n:
-        c = text[i]
-        if c == "\n":
-            line += 1
-            i += 1
-            continue
-        if c in " \t\r\f\v\xa0":
-            i += 1
-            continue
-        if c == "-" and text.startswith("--", i):
-            j = text.find("\n", i)
-            j = n if j < 0 else j
-            toks.append(Tok("comment", text[i + 2:j].strip(), line))
+        m = match(text, i)
+        if m is None:
+            c = text[i]
+            if c == '"':
+                raise VhdlSyntaxError("unterminated string literal", line)
+            if c == "\\":
+                raise Unsupported("extended identifier")
+            raise VhdlSyntaxError(f"illegal character {c!r}", line)
+        kind = m.lastgroup
+        j = m.end()
+        if kind == "ws":
             i = j
             continue
-        m = _BITSTR.match(text, i)
-        if m and (m.group(1) or m.group(2)):
-            toks.append(Tok("bitstr", m.group(0), line))
-            i = m.end()
+        if kind == "nl":
+            line += 1
+            i = j
             continue
-        m = _ID.match(text, i)
-        if m:
-            raw = m.group(0)
+        if kind == "comment":
+            append(Tok("comment", text[i + 2:j].strip(), line))
+            i = j
+            continue
+        if kind == "id":
+            raw = m.group()
             low = raw.lower()
             if low in RESERVED:
-                toks.append(Tok("kw", low, line, raw))
+                tok = Tok("kw", low, line, raw)
             else:
-                prob = ident_problem(raw)
-                if prob:
-                    bad_idents.append((raw, prob, line))
-                toks.append(Tok("id", low, line, raw))
-            i = m.end()
-            continue
-        if c.isdigit():
-            m = _BASED.match(text, i)
-            if m:
-                raise Unsupported(f"based literal {m.group(0)}")
-            m = _NUM.match(text, i)
-            s = m.group(0)
-            if "." in s:
-                toks.append(Tok("real", s.replace("_", ""), line))
-            else:
-                toks.append(Tok("int", s.replace("_", ""), line))
-            i = m.end()
-            # a letter directly after a number is a lexical error (e.g. 1x)
-            if i < n and (text[i].isalpha() or text[i] == "_"):
-                raise VhdlSyntaxError(f"identifier may not start with a digit: {text[m.start():i+8]!r}", line)
-            continue
-        if c == '"':
-            j = i + 1
-            buf = []
-            while True:
-                if j >= n or text[j] == "\n":
-                    raise VhdlSyntaxError("unterminated string literal", line)
-                if text[j] == '"':
-                    if j + 1 < n and text[j + 1] == '"':
-                        buf.append('"')
-                        j += 2
-                        continue
-                    break
-                buf.append(text[j])
-                j += 1
-            toks.append(Tok("str", "".join(buf), line))
-            i = j + 1
-            continue
-        if c == "'":
+                if raw[0] == "_" or raw[-1] == "_" or "__" in raw:
+                    bad_idents.append((raw, ident_problem(raw), line))
+                tok = Tok("id", low, line, raw)
+        elif kind == "bitstr":
+            tok = Tok("bitstr", m.group(), line)
+        elif kind == "based":
+            raise Unsupported(f"based literal {m.group()}")
+        elif kind == "num":
+            s_ = m.group()
+            if j < n and (text[j].isalpha() or text[j] == "_"):
+                raise VhdlSyntaxError(f"identifier may not start with a digit: {text[i:j+8]!r}", line)
+            tok = Tok("real" if "." in s_ else "int", s_.replace("_", ""), line)
+        elif kind == "str":
+            tok = Tok("str", m.group()[1:-1].replace('""', '"'), line)
+        elif kind == "tick":
             # character literal unless the previous token can end a prefix (name, ')', 'all')
-            prev = next((t for t in reversed(toks) if t.kind != "comment"), None)
             is_tick = prev is not None and (prev.kind == "id" or prev.text in (")", "all", "]"))
             if not is_tick and i + 2 < n and text[i + 2] == "'":
-                toks.append(Tok("char", text[i + 1], line))
-                i += 3
-                continue
-            if is_tick and i + 2 < n and text[i + 2] == "'" and text[i + 1] != "(":
-                # e.g.  x'('a') never printed; treat id'X' as tick followed by attribute
-                pass
-            toks.append(Tok("delim", "'", line))
-            i += 1
-            continue
-        if c == "\\":
-            raise Unsupported("extended identifier")
-        two = text[i:i + 2]
-        if two in _DELIMS2:
-            toks.append(Tok("delim", two, line))
-            i += 2
-            continue
-        if c in _DELIMS1:
-            toks.append(Tok("delim", c, line))
-            i += 1
-            continue
-        raise VhdlSyntaxError(f"illegal character {c!r}", line)
-    toks.append(Tok("eof", "", line))
+                tok = Tok("char", text[i + 1], line)
+                j = i + 3
+            else:
+                tok = Tok("delim", "'", line)
+        else:
+            tok = Tok("delim", m.group(), line)
+        append(tok)
+        prev = tok
+        i = j
+    append(Tok("eof", "", line))
     return toks, bad_idents
